@@ -434,7 +434,8 @@ pub fn lex_inputs(proj: &Project, gp: &GenProject) -> Result<BTreeMap<String, Ve
         out.insert(norm(&proj.path(rel).to_string_lossy()), toks);
     }
     for (rel, text) in gp.op_files.iter() {
-        let toks = refparse::lex(text, true).map_err(|e| format!("{rel}: {e:?}"))?;
+        // the parser's view: lines that read as import statements are comments inside definitions
+        let toks = refparse::parse_op_doc_toks(text).map(|x| x.1).map_err(|e| format!("{rel}: {e:?}"))?;
         out.insert(norm(&proj.path(rel).to_string_lossy()), toks);
     }
     Ok(out)
